@@ -45,10 +45,12 @@ type Case struct {
 	// IncludeHost (not with ViaConfig): 1: Options.IncludeHost without a host among the common tags
 	// (every batch then carries host=<machine name> as well); 2: with host=custom-host (kept); 3: with
 	// host="" (replaced by the machine name)
-	IncludeHost int    `json:"includeHost,omitempty"`
-	MaxPacket   int32  `json:"maxPacket"`
-	IDName      string `json:"idName,omitempty"`
-	BucketName  string `json:"bucketName,omitempty"`
+	IncludeHost int `json:"includeHost,omitempty"`
+	// Precision (not with ViaConfig): Options.HistogramBucketTagPrecision (0: the default 6)
+	Precision  uint   `json:"precision,omitempty"`
+	MaxPacket  int32  `json:"maxPacket"`
+	IDName     string `json:"idName,omitempty"`
+	BucketName string `json:"bucketName,omitempty"`
 	// ViaConfig (Compact protocol and default bucket tag names only - the configuration struct has no
 	// fields for the others): the reporter is built through m3.Configuration.NewReporter. 1: HostPorts
 	// lists the destinations and HostPort (a required field of the struct) repeats the first of them,
@@ -93,6 +95,9 @@ func gen(t *rapid.T) Case {
 	c.Common = pbt.MapOf(pbt.PlainString(), pbt.AnyString(), 3).Draw(t, "common")
 	if rapid.IntRange(0, 3).Draw(t, "includeHost?") == 0 {
 		c.IncludeHost = rapid.IntRange(1, 3).Draw(t, "includeHost")
+	}
+	if rapid.IntRange(0, 3).Draw(t, "precision?") == 0 {
+		c.Precision = uint(rapid.SampledFrom([]int{1, 2, 12, 40}).Draw(t, "precision"))
 	}
 	// 0: the reporter's default packet size; 65000: the most the UDP transport takes
 	c.MaxPacket = int32(rapid.SampledFrom([]int{1440, 1440, 4000, 32768, 0, 0, 65000}).Draw(t, "maxPacket"))
@@ -261,7 +266,7 @@ func run(c Case) (pbt.Outcome, error) {
 				delete(commonOpt, "host")
 			}
 		}
-		r, err = m3.NewReporter(m3.Options{HostPorts: addrs, Service: "svc", Env: "test", CommonTags: commonOpt, IncludeHost: c.IncludeHost > 0, Protocol: proto,
+		r, err = m3.NewReporter(m3.Options{HostPorts: addrs, Service: "svc", Env: "test", CommonTags: commonOpt, IncludeHost: c.IncludeHost > 0, Protocol: proto, HistogramBucketTagPrecision: c.Precision,
 			MaxQueueSize: c.Queue, MaxPacketSizeBytes: c.MaxPacket, HistogramBucketIDName: c.IDName, HistogramBucketName: c.BucketName})
 	}
 	if err != nil {
